@@ -305,6 +305,40 @@ def derived(fl: List[int], blob: bytes, hbh: int) -> bool:
             and type(out) is (DiameterMessage if kind != "copy" else type(src)))
 
 
+def after_rejection(fl: List[int], blob: bytes) -> bool:
+    """
+    pre: len(fl) == 3 and all(0 <= f <= 127 for f in fl) and len(blob) == 3 * P["L"]
+    post: _
+    """
+    # a message whose construction met REJECTED calls on the way (a batch with a non-AVP element, a list assignment with one):
+    # whatever AVPs the message holds afterwards, its serialisation is the RFC 6733 encoding of exactly those
+    L = P["L"]
+    d = [blob[i * L:(i + 1) * L] for i in range(3)]
+    avps = [DiameterAVP(code=888 + i, flags=fl[i], data=d[i]) for i in range(3)]
+    refs = {id(a): ref_avp(888 + i, fl[i], None, d[i]) for i, a in enumerate(avps)}
+    m = DiameterMessage(DiameterHeader(command_code=280))
+    kind = P["kind"]
+    try:
+        if kind == "extend":
+            m.extend([avps[0], "not an AVP"])
+        elif kind == "setlist":
+            m.avps = [avps[0], 5]
+        else:
+            m.append(None)
+    except LIB:
+        pass
+    m.append(avps[1])
+    m.extend([avps[2]])
+    wire = m.dump()
+    reached()
+    held = list(m.avps)
+    if any(id(a) not in refs for a in held):
+        return False
+    exp = ref_msg(1, 0, 280, 0, 0, 0, [refs[id(a)] for a in held])
+    if REPLAY: note(kind=kind, held=len(held), observed=wire.hex(), expected=exp.hex())
+    return wire == exp and m.get_length() == len(exp)
+
+
 def identity_sweep():
     """native (concrete) sweep: every dictionary class instantiated with one in-domain value dumps the
     reference encoding for its frozen (code, vendor, flags).  Table comparison, not a solver query."""
@@ -390,6 +424,9 @@ def queries(tier, seed):
         for L in ((3,) if tier == "quick" else (0, 1, 3, 4)):
             qs.append(Q(f"derived/{kind}/L{L}", "derived", {"kind": kind, "L": L}, cto=t, pto=t,
                         what=f"message obtained by {kind} of a message of two generic AVPs ({L} data bytes, flags/data/Hop-by-Hop symbolic): encoding and Message Length of result AND source"))
+    for kind in ("extend", "setlist", "append"):
+        qs.append(Q(f"after_rejection/{kind}/L3", "after_rejection", {"kind": kind, "L": 3}, cto=t, pto=t,
+                    what=f"a rejected {kind} call (non-AVP element) followed by further appends: the message serialises exactly what it holds"))
     qs.append(Q("native/identity_sweep", "identity_sweep", engine="py", cto=60, what="all classes: concrete value vs frozen dictionary"))
     return qs
 
